@@ -1,8 +1,288 @@
-import NeumannModel.Blob.Lemmas
+import NeumannModel.Blob.Invariant
+/-
+  C19 — property theorems for the blob store.  ONLY property statements and their
+  non-vacuity examples live here; helpers are in `Lemmas.lean` / `Invariant.lean`.
+
+  `h` is the (opaque) content hash, `HashInj h` its collision freedom.  `run h cfg State.init ops`
+  is the state after an arbitrary operation sequence (`put / stream / abandoned stream / delete /
+  gc (any batch, any age) / fullGc / verify / get / repair`) from the empty store.
+-/
 namespace Neumann.Blob.Props
 open Neumann.Blob
 
+section
+variable {K : Type} [DecidableEq K] (h : List Nat → K)
+
+/-! ### reading returns what was written -/
+
+/-- the chunker is a partition of the data, for every data size and every chunk size > 0
+    (0, 1, c-1, c, c+1, many chunks are instances) -/
 theorem chunks_concat (c : Nat) (hc : 0 < c) (d : List Nat) : (chunks c d).flatten = d :=
   chunks_flatten c hc d
+
+/-- whatever sizes the pieces handed to a streaming writer have (empty pieces included), the chunks it
+    stores concatenate to the concatenation of the pieces; holds for every chunk size -/
+theorem stream_chunks_concat (c : Nat) (ps : List (List Nat)) : (streamChunks c ps).flatten = ps.flatten :=
+  streamChunks_flatten c ps
+
+/-- `put` then ANY operation sequence that does not delete that artifact, after ANY history:
+    `get` returns exactly the bytes written -/
+theorem read_returns_written (hi : HashInj h) (cfg : Cfg) (ops₁ ops₂ : List Op) (t : Nat) (d : List Nat) (id : Nat)
+    (hput : (put h cfg t (run h cfg State.init ops₁) d).2 = .ok id)
+    (hnd : ∀ op ∈ ops₂, op ≠ .delete id) :
+    get (run h cfg (put h cfg t (run h cfg State.init ops₁) d).1 ops₂) id = .ok d := by
+  have hw := WF_reach h hi cfg ops₁
+  rcases put_cases h cfg t (run h cfg State.init ops₁) d with ⟨_, e, he⟩ | e
+  · rw [he] at hput; cases hput
+  · rw [e] at hput ⊢
+    simp only [Except.ok.injEq] at hput
+    obtain ⟨hw1, _, hget⟩ := stream_step h hi hw cfg t [d]
+    rw [hput] at hget
+    have hsome : (find id (stream h cfg t (run h cfg State.init ops₁) [d]).1.arts).isSome := by
+      unfold get at hget
+      cases hf : find id (stream h cfg t (run h cfg State.init ops₁) [d]).1.arts with
+      | none => simp [hf] at hget
+      | some a => rfl
+    rw [(run_step h hi cfg ops₂ hw1).2 id hsome hnd, hget]
+    simp
+
+/-- the same for an artifact streamed in arbitrary pieces -/
+theorem read_returns_streamed (hi : HashInj h) (cfg : Cfg) (ops₁ ops₂ : List Op) (t : Nat) (ps : List (List Nat))
+    (hnd : ∀ op ∈ ops₂, op ≠ .delete (stream h cfg t (run h cfg State.init ops₁) ps).2) :
+    get (run h cfg (stream h cfg t (run h cfg State.init ops₁) ps).1 ops₂)
+        (stream h cfg t (run h cfg State.init ops₁) ps).2 = .ok ps.flatten := by
+  have hw := WF_reach h hi cfg ops₁
+  obtain ⟨hw1, _, hget⟩ := stream_step h hi hw cfg t ps
+  have hsome : (find (stream h cfg t (run h cfg State.init ops₁) ps).2
+      (stream h cfg t (run h cfg State.init ops₁) ps).1.arts).isSome := by
+    unfold get at hget
+    cases hf : find (stream h cfg t (run h cfg State.init ops₁) ps).2
+        (stream h cfg t (run h cfg State.init ops₁) ps).1.arts with
+    | none => simp [hf] at hget
+    | some a => rfl
+  rw [(run_step h hi cfg ops₂ hw1).2 _ hsome hnd, hget]
+
+/-! ### reference counts -/
+
+/-- in every reachable state every chunk's refcount is at least the number of times live artifacts list it
+    (abandoned writers only add slack) -/
+theorem refs_invariant (hi : HashInj h) (cfg : Cfg) (ops : List Op) (k : K) :
+    occ k (run h cfg State.init ops).arts ≤ refsOf k (run h cfg State.init ops).chunks :=
+  (WF_reach h hi cfg ops).refs k
+
+/-- hence every chunk a live artifact lists is present -/
+theorem live_chunks_present (hi : HashInj h) (cfg : Cfg) (ops : List Op) (p : Nat × Art K)
+    (hp : p ∈ (run h cfg State.init ops).arts) (k : K) (hk : k ∈ p.2.chunks) :
+    (find k (run h cfg State.init ops).chunks).isSome := by
+  have := refs_invariant h hi cfg ops k
+  exact refsOf_pos_isSome (by have := occ_pos_of_mem hp hk; omega)
+
+/-! ### identical content is stored once -/
+
+/-- no two chunk records hold the same content -/
+theorem dedup_once (hi : HashInj h) (cfg : Cfg) (ops : List Op) :
+    ((run h cfg State.init ops).chunks.map (·.2.data)).Nodup := by
+  have hw := WF_reach h hi cfg ops
+  have hk : keys (run h cfg State.init ops).chunks = ((run h cfg State.init ops).chunks.map (·.2.data)).map h := by
+    rw [List.map_map]
+    apply List.map_congr_left
+    intro p hp
+    exact (hw.addr p hp).symm
+  have := hw.nodup
+  rw [hk] at this
+  exact List.Pairwise.of_map h (fun a b hne e => hne (congrArg h e)) this
+
+/-- writing content whose chunks are all stored already adds no chunk record -/
+theorem dedup_rewrite_adds_nothing (cfg : Cfg) (t : Nat) (s : State K) (ps : List (List Nat))
+    (hp : ∀ d ∈ streamChunks cfg.chunkSize ps, (find (h d) s.chunks).isSome) :
+    keys (stream h cfg t s ps).1.chunks = keys s.chunks := by
+  rw [stream_eq]
+  exact storeAll_keys_of_present h t _ _ hp
+
+/-! ### delete and the collectors never damage another artifact -/
+
+/-- for ANY state: deleting one artifact leaves every other artifact's bytes (or error) unchanged -/
+theorem delete_preserves_others (s : State K) (id id' : Nat) (hne : id' ≠ id) :
+    get (delete s id).1 id' = get s id' :=
+  get_delete_other s id id' hne
+
+/-- `gc_cycle`, for every age threshold and every batch the scan hands it, removes only records that no
+    existing artifact lists -/
+theorem gc_only_unreferenced (hi : HashInj h) (cfg : Cfg) (ops : List Op) (mc : Nat) (sel : K → Bool) (k : K)
+    (hpre : (find k (run h cfg State.init ops).chunks).isSome)
+    (hgone : find k (gcSel mc sel (run h cfg State.init ops)).1.chunks = none) :
+    occ k (run h cfg State.init ops).arts = 0 := by
+  have hw := WF_reach h hi cfg ops
+  generalize run h cfg State.init ops = s at *
+  simp only [gcSel] at hgone
+  rw [find_filter _ hw.nodup] at hgone
+  cases hf : find k s.chunks with
+  | none => simp [hf] at hpre
+  | some r =>
+    simp only [hf, Option.bind_some] at hgone
+    by_cases hd : gcDead mc sel (k, r) = true
+    · simp only [gcDead, Bool.and_eq_true, decide_eq_true_eq] at hd
+      have := hw.refs k
+      unfold refsOf at this; rw [hf] at this
+      simp only at this
+      have := hd.1.2
+      omega
+    · simp [hd] at hgone
+
+/-- `full_gc` (any state with unique keys) removes only records that no existing artifact lists -/
+theorem full_gc_only_unreferenced (s : State K) (hn : (keys s.chunks).Nodup) (k : K)
+    (hpre : (find k s.chunks).isSome) (hgone : find k (fullGc s).1.chunks = none) : occ k s.arts = 0 := by
+  simp only [fullGc] at hgone
+  rw [find_filter _ hn] at hgone
+  cases hf : find k s.chunks with
+  | none => simp [hf] at hpre
+  | some r =>
+    simp only [hf, Option.bind_some, contains_referenced] at hgone
+    by_cases hd : 0 < occ k s.arts
+    · simp [hd] at hgone
+    · omega
+
+/-- every collector (gc with any threshold/batch, full gc, repair) leaves every artifact's bytes unchanged -/
+theorem collectors_keep_every_artifact (hi : HashInj h) (cfg : Cfg) (ops : List Op) (mc : Nat) (sel : K → Bool) (id : Nat) :
+    get (gcSel mc sel (run h cfg State.init ops)).1 id = get (run h cfg State.init ops) id ∧
+    get (fullGc (run h cfg State.init ops)).1 id = get (run h cfg State.init ops) id ∧
+    get (repair (run h cfg State.init ops)).1 id = get (run h cfg State.init ops) id := by
+  have hw := WF_reach h hi cfg ops
+  exact ⟨(gcSel_step h hw mc sel).2 id, (fullGc_step h hw).2 id, (repair_step h hw).2 id⟩
+
+/-- for ANY state: delete every artifact, then one full collection: no artifact and no chunk is left -/
+theorem full_gc_after_delete_all_empty (s : State K) :
+    (fullGc (deleteAll s)).1.chunks = [] ∧ (fullGc (deleteAll s)).1.arts = [] := by
+  have ha : (deleteAll s).arts = [] :=
+    deleteList_arts_nil (keys s.arts) s (fun p hp => List.mem_map.mpr ⟨p, hp, rfl⟩)
+  constructor
+  · simp only [fullGc, ha, referenced, List.flatMap_nil]
+    apply List.filter_eq_nil_iff.mpr
+    intro p _; simp
+  · simp only [fullGc]; exact ha
+
+/-! ### integrity verification -/
+
+/-- undamaged artifacts verify, in every reachable state -/
+theorem verify_ok_on_undamaged (hi : HashInj h) (cfg : Cfg) (ops : List Op) (id : Nat) (a : Art K)
+    (hf : find id (run h cfg State.init ops).arts = some a) :
+    verify h (run h cfg State.init ops) id = .ok true := by
+  have hw := WF_reach h hi cfg ops
+  obtain ⟨d, h1, h2, _⟩ := hw.intact (id, a) (find_some_mem hf)
+  have h1' : readChunks (run h cfg State.init ops).chunks a.chunks = .ok d := h1
+  have h2' : a.checksum = h d := h2
+  unfold verify
+  simp only [hf, h1', h2', decide_true]
+
+/-- take any reachable state and replace its chunk table by ANYTHING (chunks altered, missing, added):
+    `verify` answers `Ok(true)` exactly when the artifact still reads back as the original bytes -/
+theorem verify_detects_alteration (hi : HashInj h) (cfg : Cfg) (ops : List Op) (id : Nat) (a : Art K)
+    (tbl' : List (K × CRec))
+    (hf : find id (run h cfg State.init ops).arts = some a) :
+    verify h { run h cfg State.init ops with chunks := tbl' } id = .ok true ↔
+      get { run h cfg State.init ops with chunks := tbl' } id = get (run h cfg State.init ops) id := by
+  have hw := WF_reach h hi cfg ops
+  generalize run h cfg State.init ops = s at *
+  obtain ⟨d, h1, h2, _⟩ := hw.intact (id, a) (find_some_mem hf)
+  have h1' : readChunks s.chunks a.chunks = .ok d := h1
+  have h2' : a.checksum = h d := h2
+  unfold verify get
+  simp only [hf, h1']
+  cases hr : readChunks tbl' a.chunks with
+  | error e => simp
+  | ok d' =>
+    simp only [Except.ok.injEq, decide_eq_true_eq, h2']
+    exact ⟨fun e => hi _ _ e, fun e => by rw [e]⟩
+
+/-- in particular a missing chunk is reported as an error, never as `Ok(true)` -/
+theorem verify_reports_missing_chunk (s : State K) (id : Nat) (a : Art K) (k : K)
+    (hf : find id s.arts = some a) (hk : k ∈ a.chunks) (hm : find k s.chunks = none) :
+    verify h s id = .error .chunkMissing := by
+  unfold verify
+  simp only [hf]
+  have : readChunks s.chunks a.chunks = .error .chunkMissing := by
+    generalize a.chunks = ks at hk
+    induction ks with
+    | nil => simp at hk
+    | cons k0 ks ih =>
+      rw [readChunks]
+      cases hf0 : find k0 s.chunks with
+      | none => rfl
+      | some r =>
+        simp only
+        have hk' : k ∈ ks := by
+          rcases List.mem_cons.mp hk with e | e
+          · subst e; rw [hm] at hf0; cases hf0
+          · exact e
+        rw [ih hk']
+  rw [this]
+
+end
+
+/-! ### witnesses and non-vacuity (keys = chunk bytes, `h = id`, as in the driver) -/
+
+abbrev cfg2 : Cfg := ⟨2, none⟩
+def hid : List Nat → List Nat := id
+theorem hid_inj : HashInj hid := fun _ _ e => e
+
+/-- `verify` hashes the concatenation only: moving a chunk boundary inside the store (two records altered
+    at once, bytes of the artifact unchanged) is not reported.  The artifact still reads back correctly. -/
+theorem verify_boundary_shift_undetected_witness :
+    let s := (put hid cfg2 0 State.init [1, 2, 3, 4]).1
+    let s' := corrupt (corrupt s [1, 2] [1]) [3, 4] [2, 3, 4]
+    verify hid s' 0 = .ok true ∧ get s' 0 = .ok [1, 2, 3, 4] ∧ s'.chunks ≠ s.chunks := by decide
+
+/-- API-level interleaving on one thread: a streaming writer has stored chunks but not yet its metadata;
+    `full_gc` runs; the writer finishes successfully; the artifact cannot be read. -/
+theorem open_writer_full_gc_witness :
+    let s1 := wWrite hid 2 0 State.init Writer.new [1, 2, 3]
+    let s2 := (fullGc s1.1).1
+    let s3 := wFinish hid 0 s2 s1.2
+    get s3.1 s3.2 = .error .chunkMissing := by decide
+
+/-- the same with `repair` -/
+theorem open_writer_repair_witness :
+    let s1 := wWrite hid 2 0 State.init Writer.new [1, 2, 3]
+    let s2 := (repair s1.1).1
+    let s3 := wFinish hid 0 s2 s1.2
+    get s3.1 s3.2 = .error .chunkMissing := by decide
+
+/-- The full concurrent statement: for every interleaving of the store steps of any set of writers,
+    deleters, `gc_cycle`s and `full_gc`s started on a reachable store, every existing artifact keeps all
+    its chunks. -/
+def ConcurrentNoLiveCollect : Prop :=
+  ∀ (cfg : Cfg) (ops : List Op) (ths : List (Th (List Nat))) (sched : List Nat),
+    (∀ th ∈ ths, th.isStart = true) →
+    liveIntact (runSched hid (run hid cfg State.init ops) ths sched).1 = true
+
+/-- it is FALSE of the current code: writer ∥ full_gc from the empty store -/
+theorem concurrent_full_gc_vs_writer_witness : ¬ ConcurrentNoLiveCollect := by
+  intro hc
+  have := hc cfg2 [] [Th.writer 0 0 [[1]], Th.fullGc] [0, 0, 1, 1, 1, 1, 1, 1, 0] (by decide)
+  revert this
+  decide
+
+/-- and no collector needs to overlap anything: two writers of the same content interleave their
+    `exists`/`put` steps (refcount 1 for two references), one artifact is deleted, and a `gc_cycle` that
+    starts after everybody else has finished removes the chunk of the surviving artifact -/
+theorem concurrent_lost_update_witness :
+    let ths : List (Th (List Nat)) := [Th.writer 0 0 [[1]], Th.writer 1 0 [[1]], Th.deleter 0, Th.gc 5]
+    let before := runSched hid State.init ths [0, 1, 0, 1, 0, 1, 2, 2, 2, 2]
+    let after := runSched hid before.1 before.2 [3, 3, 3, 3]
+    (before.2.take 3).all Th.isDone = true ∧ liveIntact before.1 = true ∧
+    refsOf [1] before.1.chunks = 0 ∧ occ [1] before.1.arts = 1 ∧
+    after.2.all Th.isDone = true ∧ liveIntact after.1 = false := by decide
+
+/-! non-vacuity -/
+example : HashInj hid := hid_inj
+example : get (run hid cfg2 (put hid cfg2 0 (run hid cfg2 State.init [.put 0 [9, 9, 9]]) [1, 2, 3]).1
+    [.delete 0, .gcAll 10 1, .fullGc, .repair]) 1 = .ok [1, 2, 3] :=
+  read_returns_written hid hid_inj cfg2 [.put 0 [9, 9, 9]] [.delete 0, .gcAll 10 1, .fullGc, .repair] 0 [1, 2, 3] 1
+    (by decide) (by decide)
+example : (put hid cfg2 0 (run hid cfg2 State.init [.put 0 [9, 9, 9]]) [1, 2, 3]).2 = .ok 1 := by decide
+example : (find [1, 2] (run hid cfg2 State.init [.put 0 [1, 2, 3], .delete 0]).chunks).isSome = true ∧
+    find [1, 2] (gcSel 5 (fun _ => true) (run hid cfg2 State.init [.put 0 [1, 2, 3], .delete 0])).1.chunks = none := by decide
+example : find 0 (run hid cfg2 State.init [.put 0 [1, 2, 3]]).arts = some ⟨[[1, 2], [3]], 3, [1, 2, 3]⟩ := by decide
+example : (fullGc (deleteAll (run hid cfg2 State.init [.put 0 [1, 2, 3], .abandon 0 [[7, 7, 7]], .put 0 [1, 2]]))).1.chunks = [] := by decide
 
 end Neumann.Blob.Props
